@@ -84,6 +84,52 @@ func membershipGuard(b *ssa.BasicBlock, cs ssa.Value) (list ssa.Value, ok bool) 
 			return lst, true
 		}
 	}
+	return membershipGuardSet(b, cs)
+}
+
+// membershipGuardSet accepts the other way of writing the membership test: an index (map keyed by endpoint ID) built
+// from the sent list, looked up with the sender's peer ID. It stands for the list only if it is kept in step with it:
+// filled from the list's elements, and extended with the selected peer in the very block that selects it (otherwise a
+// second sender towards the same peer is not excluded within the same call).
+func membershipGuardSet(b *ssa.BasicBlock, cs ssa.Value) (list ssa.Value, ok bool) {
+	var set ssa.Value
+	for _, c := range core.DominatingConds(b) {
+		ex, isEx := c.V.(*ssa.Extract)
+		if !isEx || ex.Index != 1 || c.True {
+			continue
+		}
+		lk, isLk := ex.Tuple.(*ssa.Lookup)
+		if !isLk || !lk.CommaOk || !isPeerIDOf(lk.Index, cs) {
+			continue
+		}
+		if mt, isMap := lk.X.Type().Underlying().(*types.Map); isMap && core.TypeIs(mt.Key(), bp7, "EndpointID") {
+			set = lk.X
+		}
+	}
+	if set == nil {
+		return nil, false
+	}
+	updatedHere := false
+	for _, in := range b.Instrs {
+		if mu, isMU := in.(*ssa.MapUpdate); isMU && mu.Map == set && isPeerIDOf(mu.Key, cs) {
+			updatedHere = true
+		}
+	}
+	if !updatedHere {
+		return nil, false
+	}
+	// filled from a list of endpoint IDs
+	for _, ref := range *set.Referrers() {
+		mu, isMU := ref.(*ssa.MapUpdate)
+		if !isMU || mu.Map != set {
+			continue
+		}
+		if ld, isL := mu.Key.(*ssa.UnOp); isL && ld.Op == token.MUL {
+			if ia, isIA := ld.X.(*ssa.IndexAddr); isIA && isEIDSlice(ia.X.Type()) {
+				return ia.X, true
+			}
+		}
+	}
 	return nil, false
 }
 
